@@ -59,6 +59,10 @@ def model_class():
             self.nh = 0
             self.log = []
             self.constructed = 0
+            # a stream object that lives as long as the model and is seeded
+            # anew for every replication (seed handed over by the experiment)
+            self.keep = MersenneTwister(3)
+            self.next_seed = 777
 
         def construct_model(self):
             sim = self.simulator
@@ -70,6 +74,12 @@ def model_class():
             # streams with the valid seeds 0 and False
             self.zero = MersenneTwister(0)
             self.falsy = MersenneTwister(False)
+            self.keep.set_seed(self.next_seed)
+            # a component that follows the simulator's notifications and has
+            # side effects of its own (built anew for every replication)
+            self.watch = Watch(self)
+            sim.add_listener(S.TIME_CHANGED_EVENT, self.watch)
+            sim.add_listener(RI.WARMUP_EVENT, self.watch)
             self.ia = DistExponential(self.stream, 0.7)
             self.sv = DistUniform(self.stream, 0.2, 0.9)
             self.cnt = SimCounter("arr", "arrivals", sim)
@@ -129,7 +139,8 @@ def model_class():
             self.hook("special")
             self.cnt.register(3)
             self.tal.register(0.125 + self.zero.next_float()
-                              + self.falsy.next_float())
+                              + self.falsy.next_float()
+                              + self.keep.next_float())
 
         def arrive(self):
             self.hook("arrive")
@@ -148,6 +159,18 @@ def model_class():
             self.q -= 1
             self.per.register(self.now(), self.q)
             self.tal.register(svc)
+
+    class Watch(EventListener):
+        def __init__(self, model):
+            self.m = model
+            self.n = 0
+
+        def notify(self, e):
+            m = self.m
+            self.n += 1
+            m.log.append(("watch", self.n, m.stream.next_float()))
+            if e.event_type is RI.WARMUP_EVENT:
+                m.simulator.schedule_event_rel(m.T(0.75), m, "special", 5)
 
     class Rec(EventListener):
         def __init__(self):
@@ -251,7 +274,18 @@ PRIORS = [("none",), ("init-only",), ("init-twice",), ("step", 1),
           ("cleanup-after-steps",), ("stop-then-step",),
           ("init-from-handler", 2), ("init-from-listener", "STARTING"),
           ("init-from-listener", "START"),
-          ("init-from-listener", "START_REPLICATION")]
+          ("init-from-listener", "START_REPLICATION"),
+          ("init-and-schedule",),
+          # the following replication is given the very same replication
+          # object as the history before it
+          ("same-rep", ("init-only",)), ("same-rep", ("init-and-schedule",)),
+          ("same-rep", ("step", 2)), ("same-rep", ("stop-at", 3)),
+          ("same-rep", ("ended",)), ("same-rep", ("upto", 1.0)),
+          # twenty earlier replications, each with another seed for the
+          # model's long-lived stream
+          ("chain",) + (("init-only",),) * 20,
+          ("chain",) + (("step", 1),) * 17 + (("ended",),),
+          ("chain",) + (("same-rep", ("init-only",)),) * 3]
 
 
 def run_case(case):
@@ -274,6 +308,7 @@ def run_case(case):
     # a prior history may be a chain of histories, each with its own
     # initialize
     chain = list(prior[1:]) if prior[0] == "chain" else [prior]
+    keep_rep = [None]
 
     def body(s):
         out = {}
@@ -288,15 +323,29 @@ def run_case(case):
             notes = []
             if label == "subject":
                 try:
-                    for prior in chain:
+                    for ci, prior in enumerate(chain):
                         k = prior[0]
+                        same = k == "same-rep"
+                        if same:
+                            prior = prior[1]
+                            k = prior[0]
+                        m.next_seed = 5000 + ci
+                        keep_rep[0] = None
                         if k != "none":
                             r0 = rep(3.0 if k == "ended-short" else
                                      9.0 if k == "ended-long" else END)
                             m.rep = r0
+                            if same:
+                                keep_rep[0] = r0
                             sim.initialize(m, r0)
                             wait_idle(sim, s)
-                            if k == "init-twice":
+                            if k == "init-and-schedule":
+                                # set-up work by hand after the initialize
+                                sim.schedule_event_abs(START + T(1.5), m,
+                                                       "special", 7)
+                                sim.schedule_event_abs(START + T(0.0), m,
+                                                       "special", 10)
+                            elif k == "init-twice":
                                 sim.initialize(m, r0)
                                 wait_idle(sim, s)
                             elif k == "step":
@@ -375,7 +424,10 @@ def run_case(case):
                 except Exception as ex:  # noqa
                     notes.append(("prior-raised", type(ex).__name__))
             m.stop_at = m.fault_at = m.init_at = None
-            d = target_replication(sim, m, rep(), rec, s)
+            m.next_seed = 777
+            d = target_replication(
+                sim, m, keep_rep[0] if label == "subject" and keep_rep[0]
+                is not None else rep(), rec, s)
             d["notes"] = notes
             out[label] = d
             sim.cleanup()
@@ -460,14 +512,16 @@ def run(ctx):
     # chains of two prior histories (each with its own initialize): all
     # ordered pairs in the thorough tier, every history followed / preceded
     # by a completed replication in the quick tier
-    pairs = [(p, q) for p in PRIORS[1:] for q in PRIORS[1:]]
+    simple = [p for p in PRIORS[1:] if p[0] != "chain"]
+    pairs = [(p, q) for p in simple for q in simple]
     cases += [(c, v, ("chain", p, q), w) for p, q in pairs
               for c in (("float",) if quick else clocks)
               for v in ((0,) if quick else (0, 1))
               for w in ((1.0,) if quick else (1.0, 0.0))]
     if not quick:
         cases += [("float", 0, ("chain", p, q, r), 1.0)
-                  for p in PRIORS[1:] for q in PRIORS[1:] for r in PRIORS[1:]]
+                  for p in simple[:20] for q in simple[:20]
+                  for r in simple[:20]]
     if ctx.seed:
         cases += [("float", 4 + ctx.seed % 50, p, 1.0) for p in PRIORS]
     n = nontriv = 0
@@ -477,8 +531,12 @@ def run(ctx):
         if sample:
             ctx.sample(sample, limit=2)
         for b in bad:
-            hist = case[2][0] if case[2][0] != "chain" else \
-                "chain-" + "-".join(x[0] for x in case[2][1:])
+            def hname(x):
+                return x[0] if x[0] != "same-rep" else "same-rep." + x[1][0]
+            hist = hname(case[2]) if case[2][0] != "chain" else \
+                "chain-" + "-".join(hname(x) for x in case[2][1:])
+            if len(hist) > 120:
+                hist = hist[:60] + "...x%d" % (len(case[2]) - 1)
             ctx.violation("C06:%s:%s" % (hist, b[0]),
                           "%s clock, model variant %d, warm-up %s, prior "
                           "history %s: %s differs: after the prior history %s, "
